@@ -1,6 +1,8 @@
 import Holpy.Common.Sexp
 import Holpy.C16.Model
 import Holpy.C16.SimplexModel
+import Holpy.C16.SimplexBB
+import Holpy.C16.StrictModel
 /-
 Line protocol for the C16 model (one s-expression in, one out):
   (omega FUEL ROWS)          -> (sat ((var val) ...) W) | (contr DERIV C) | noconcl | (error KIND)
@@ -14,6 +16,10 @@ Line protocol for the C16 model (one s-expression in, one out):
                                 INEQS = ((ge|le ((var coeff) ...) bound) ...) with integer entries,
                                 OUTCOME = sat | (unsat xi) | (conflict k) | fuel, ATOMS = ((ge|le var bound) ...),
                                 STATE = ((basic ...) ((var value) ...)) after every check(), value = p/q
+  (bb FUEL BUDGET PICKS INEQS) -> ((found ((var value) ...)) | none | gaveup | fuel | badpick) NODES   model of branch_and_bound;
+                                PICKS = the variables find_not_int_var chose in the real run, in order
+  (delta ((X1 Y1 X2 Y2) ...))  -> (MULTI B ...)   multi_delta of the pairs (Pair(X1,Y1), Pair(X2,Y2)) and binary_delta of each
+                                (none where p1 <= p2 fails); rationals as p/q
 ROWS = (ROW ...), ROW = (c1 ... cn c0), DERIV = (asm ROW) | (rc I D D) | (gcd D) | (dc D D)
 -/
 open Holpy Holpy.C16
@@ -79,6 +85,35 @@ def handleSimplex (fuel : Nat) (qs : List Ineq) : String :=
     | .fuel _ => .atom "fuel"
   toString (Sexp.list ([oc, .list (atoms.map atomTo), stateTo s0] ++ tr.map stateTo))
 
+def ratOf : Sexp → Option Rat
+  | .atom a =>
+    match a.splitOn "/" with
+    | [p] => p.toInt?.map fun n => (n : Rat)
+    | [p, q] => do
+      let n ← p.toInt?
+      let d ← q.toNat?
+      if d == 0 then none else some ((n : Rat) / (d : Rat))
+    | _ => none
+  | _ => none
+
+open Holpy.C16.Strict in
+def handleDelta (ps : List (Pair × Pair)) : String :=
+  toString (Sexp.list (ratTo (multiDelta ps) :: ps.map fun pq =>
+    match binaryDelta pq.1 pq.2 with
+    | some d => ratTo d
+    | none => .atom "none"))
+
+open Holpy.C16.Simplex in
+def handleBB (fuel budget : Nat) (picks : List Nat) (qs : List Ineq) : String :=
+  let (r, n) := branchAndBound fuel budget qs picks
+  let rs : Sexp := match r with
+    | .found s => .list [.atom "found", .list (s.vars.map fun x => .list [Sexp.ofNat x, ratTo (s.mapping x)])]
+    | .none => .atom "none"
+    | .gaveUp => .atom "gaveup"
+    | .fuel => .atom "fuel"
+    | .badPick => .atom "badpick"
+  toString (Sexp.list [rs, Sexp.ofNat n])
+
 def handle (line : String) : String :=
   match Sexp.parse line with
   | some (.list [.atom "omega", fuel, rows]) =>
@@ -122,6 +157,16 @@ def handle (line : String) : String :=
       | some r => toString (rowTo r)
       | none => "none"
     | _, _, _ => "bad-op"
+  | some (.list [.atom "delta", ps]) =>
+    match (ps.toList?.bind fun l => l.mapM fun
+        | .list [a, b, c, d] => do some ((⟨← ratOf a, ← ratOf b⟩ : Holpy.C16.Strict.Pair), (⟨← ratOf c, ← ratOf d⟩ : Holpy.C16.Strict.Pair))
+        | _ => none) with
+    | some ps => handleDelta ps
+    | none => "bad-op"
+  | some (.list [.atom "bb", fuel, budget, picks, qs]) =>
+    match fuel.toNat?, budget.toNat?, (picks.toList?.bind fun l => l.mapM Sexp.toNat?), (qs.toList?.bind fun l => l.mapM ineqOf) with
+    | some f, some b, some ps, some qs => handleBB f b ps qs
+    | _, _, _, _ => "bad-op"
   | some (.list [.atom "simplex", fuel, qs]) =>
     match fuel.toNat?, (qs.toList?.bind fun l => l.mapM ineqOf) with
     | some f, some qs => handleSimplex f qs
